@@ -45,7 +45,7 @@ def img(t, p):
 
 @st.composite
 def basic_case(draw, tier="quick"):
-    what = draw(st.sampled_from(["translation", "rotation2", "rotation3", "scaling", "reflection2", "reflection3", "affine", "identity"]))
+    what = draw(st.sampled_from(["translation", "rotation2", "rotation3", "scaling", "reflection2", "reflection3", "affine", "identity", "powers"]))
     return {"what": what, "v": [draw(C.ints(9)) for _ in range(16)], "a": draw(st.integers(-23, 23)), "b": draw(st.integers(-23, 23)),
             "form": draw(st.sampled_from(["tuple", "point"])), "s": draw(C.scale()), "through_origin": draw(st.booleans()), "idt": draw(st.booleans()),
             "turns": draw(st.sampled_from([0, 0, 0, 3, 400, 2000])), "frac": draw(st.integers(-7, 7))}
@@ -168,6 +168,39 @@ def run_basic(c):
         if f:
             return [f]
         ck.check(np.allclose(r, p * np.array(fac), atol=1e-9), "scaling:multiplies", (r.tolist(), fac))
+        return ck.result()
+    if what == "powers":
+        # the n-th power of a constructed map is the map constructed from n times the parameter: translation(v)**n = translation(n v),
+        # rotation(a)**n = rotation(n a) (also about an axis), scaling(f)**n = scaling(f**n); exponents up to +-10 (the power is
+        # evaluated as one contraction, another algorithm than repeated multiplication)
+        n = [2, 3, 5, 7, 8, 9, 10, -2, -8, -9, 4, 6][abs(v[14]) % 12]
+        kind = ["translation", "rotation2", "scaling", "rotation3", "translation3"][abs(v[13]) % 5]
+        ang = c["a"] * math.pi / 12 + c.get("frac", 0) / 16
+        if kind == "translation":
+            t, want = (translation, (float(v[0]), float(v[1]))), (translation, (n * float(v[0]), n * float(v[1])))
+        elif kind == "translation3":
+            t, want = (translation, (float(v[0]), float(v[1]), float(v[2]))), (translation, (n * float(v[0]), n * float(v[1]), n * float(v[2])))
+        elif kind == "rotation2":
+            t, want = (rotation, (ang,)), (rotation, (n * ang,))
+        elif kind == "scaling":
+            fac = [[1.5, 0.5, -1.25, 2.0][abs(x) % 4] for x in v[:2]]
+            t, want = (scaling, tuple(fac)), (scaling, tuple(f ** n for f in fac))
+        else:
+            ax = np.array(v[:3], float)
+            if not np.any(ax):
+                raise Skip("zero axis")
+            n = max(-9, min(9, n))
+            t, want = (lambda a_: rotation(a_, axis=Point(*ax)), (ang,)), (lambda a_: rotation(a_, axis=Point(*ax)), (n * ang,))
+        T, f = call(f"powers:{kind}:construct", t[0], *t[1])
+        if f:
+            return [f]
+        W, f = call(f"powers:{kind}:construct", want[0], *want[1])
+        if f:
+            return [f]
+        R, f = call(f"powers:{kind}:t**n", lambda: T**n)
+        if f:
+            return [f]
+        ck.check(R.array.shape == W.array.shape and C.peq_all(np.asarray(R.array, complex), np.asarray(W.array, complex), 2, 1e-7), f"powers:{kind}:t**n=constructor(n*parameter)" + (":|n|>=8" if abs(n) >= 8 else ""), (n, np.asarray(R.array).tolist(), np.asarray(W.array).tolist()))
         return ck.result()
     if what in ("reflection2", "reflection3"):
         d = int(what[-1])
